@@ -244,6 +244,12 @@ def r05d(ctx):
     ctx.check(ok, "R05d", c, f"imaginary part is negated in place exactly where the saved original frequencies ({keep}) are < 0", detail, key_detail="mirror")
     r = returns(fn)
     ctx.check(len(r) == 1 and u(r[0].value) == "responses", "R05d", c, "the (mirrored) responses are returned", "", key_detail="return")
+    # the mirror is applied in place: the array it works on must be the method's own (a copy of whatever the response function returned)
+    from .c04 import fresh
+    defs = [s_ for s_ in ast.walk(fn) if isinstance(s_, ast.Assign) and u(s_.targets[0]) == "responses"]
+    ok = bool(defs) and all(fresh(d.value, fn, {}) for d in defs)
+    ctx.check(ok, "R05d", c, "`responses` is a freshly allocated array on both arms (the in-place conjugation must not write into the response function's own data)",
+              str([u(d.value)[:50] for d in defs]), key_detail="responses aliased")
     # forwarding of force_real from the public method
     ff = repo.member(SIG, "filter_frequencies")
     cs = calls(ff, name="_get_filter_response", recv="self")
@@ -301,6 +307,11 @@ def run(ctx):
 
 SELFTEST = {
     "faults": [
+        {"name": "np.asarray instead of a copy before the in-place mirror", "file": "pyrex/signals.py", "old": "            responses = np.array(function(freqs), dtype=np.complex128)",
+         "new": "            responses = np.asarray(function(freqs), dtype=np.complex128)", "rule": "R05d"},
+        {"name": "real inverse transform one bin short", "file": "pyrex/signals.py", "old": "        filtered_vals = scipy.fft.ifft(responses*spectrum)\n        self.values = np.real(filtered_vals[:len(self.times)])",
+         "new": "        n_half = len(self.values)\n        filtered_vals = scipy.fft.irfft((responses*spectrum)[:n_half], n=2*n_half)\n        self.values = np.real(filtered_vals[:len(self.times)])",
+         "rule": ["R05b", "R05e"]},
         {"name": "no zero padding", "file": "pyrex/signals.py", "old": "        vals = np.concatenate((self.values, np.zeros(len(self.values))))", "new": "        vals = np.array(self.values)",
          "rule": "R05b"},
         {"name": "response added to the spectrum", "file": "pyrex/signals.py", "old": "        filtered_vals = scipy.fft.ifft(responses*spectrum)", "new": "        filtered_vals = scipy.fft.ifft(responses+spectrum)",
